@@ -98,3 +98,95 @@ Definition idx_bytes (a : list N) (i : Z) : option N :=
   if (i <? 0)%Z then None else nth_error a (Z.to_nat i).
 Definition idx_refs (a : list gref) (i : Z) : option gref :=
   if (i <? 0)%Z then None else nth_error a (Z.to_nat i).
+
+(* ================================================================== *)
+(* Vocabulary of Gen/IterGen.v (go/cmd/srcfacts/translate_iter.go): findChild, lowestCommonParent, the
+   explicit-stack traversals all / backward / filter / rangeScan of tree.go and the wrappers topK / bottomK.
+
+     Go                                   here
+     []nodeRef, []struct{nodeRef; int}    list gref, list (gref * Z): a slice is the list of its elements (s[len(s)-1] is the
+                                          LAST one), a nil slice is [], append(s, x) is s ++ [x]
+     s[:hi], s[lo:hi]                     slice_to s hi, slice_from_to s lo hi : option.  None: out of range, a Go panic -- and also
+                                          hi beyond len(s) but within the capacity, where Go exposes elements this model has no value for
+     unsafe.Slice(&a[0], n), a an array   slice_to a n  (n beyond the array: Go reads the adjacent memory; stuck here)
+     *nodeRef                             option gref: None is the nil pointer, Some r a pointer to a cell holding r.  &a[i] is a
+                                          checked read, *p is stuck on nil; nothing translated writes through such a pointer
+     bytes.Compare(a, b)                  bytes_compare a b : Z  (-1, 0, +1, from Base/Bytes.lex_cmp)
+     uint                                 N below 2^64 (wrap written out with width 64)
+     restore (a parameter func(unsafe.Pointer) (K, V))
+                                          k, v := restore(p) binds k and v to the leaf p points to (cast_leaf p: stuck on nil and on an
+                                          inner node); yield(k, v) and predicate(k, v) receive that leaf
+     predicate (a parameter func(K, V) bool)   a function xtree -> bool of that leaf
+     yield (the parameter of the returned closure)
+                                          ans : nat -> bool, its answer to the i-th call (i from 0).  The translation threads two
+                                          variables through the closure body: yi, the number of calls made so far, and yacc, the
+                                          leaves passed so far, LAST FIRST
+     a closure func(yield func(K, V) bool) run to its end: ires.
+       IDone how calls acc                how = ByReturn (a return statement), ByBreak (the main loop was left by break and the end
+                                          of the body reached), ByEnd (its condition failed and the end of the body was reached),
+                                          ByFuel (the main loop used up the budget `fuel`: never a Go behaviour)
+       IPanic / IFuel                     a Go panic or a stuck read / an inner loop out of the budget the translator gave it
+     for k, v := range seq { body }       range_over (below) *)
+Definition ptr_is_nil {A} (p : option A) : bool := match p with None => true | Some _ => false end.
+Definition bytes_compare (a b : list N) : Z :=
+  match lex_cmp a b with Lt => (-1)%Z | Eq => 0%Z | Gt => 1%Z end.
+Definition slice_to {A} (s : list A) (hi : Z) : option (list A) :=
+  if ((hi <? 0) || (Z.of_nat (length s) <? hi))%Z then None else Some (firstn (Z.to_nat hi) s).
+Definition slice_from_to {A} (s : list A) (lo hi : Z) : option (list A) :=
+  if ((lo <? 0) || (hi <? lo) || (Z.of_nat (length s) <? hi))%Z then None
+  else Some (firstn (Z.to_nat (hi - lo)) (skipn (Z.to_nat lo) s)).
+Definition idx_entries (a : list (gref * Z)) (i : Z) : option (gref * Z) :=
+  if (i <? 0)%Z then None else nth_error a (Z.to_nat i).
+
+Inductive iend : Set := ByReturn | ByBreak | ByEnd | ByFuel.
+Inductive ires : Type := IDone (how : iend) (calls : nat) (acc : list xtree) | IPanic | IFuel.
+
+(* `for k, v := range seq { body }` as the LAST statement of a closure func(yield ...), k and v used only as the
+   arguments of that yield.  Go calls seq with the loop body as ITS yield: the body answers true when it runs to its
+   end or executes continue, false when it executes break or return (then seq must not call it again).
+     seq : (nat -> bool) -> ires     the iterator as a function of its consumer: IDone _ n acc = it called the consumer
+                                     n times, with the elements rev acc
+     step s y : bstep St             one run of the body started with the captured variables it assigns equal to s and
+                                     y calls of the enclosing yield made so far: BNext / BBreak / BReturn with the
+                                     values at its end; BPanic / BFuel as above
+   The i-th run starts from the state the (i-1)-th left (range_pre); its answer is range_ans.  The closure ends
+   (range_fold) ByBreak / ByReturn at the first run that ends so, else ByEnd when seq returns (ByFuel if seq ran out
+   of fuel); the element of a run is passed on to the enclosing yield iff the run calls it (y grows). *)
+Inductive bstep (St : Type) : Type :=
+  BNext (s : St) (y : nat) | BBreak (s : St) (y : nat) | BReturn (s : St) (y : nat) | BPanic | BFuel.
+Arguments BNext {St}. Arguments BBreak {St}. Arguments BReturn {St}. Arguments BPanic {St}. Arguments BFuel {St}.
+Section Range.
+Context {St : Type} (step : St -> nat -> bstep St).
+Fixpoint range_pre (s0 : St) (y0 : nat) (i : nat) : option (St * nat) :=
+  match i with
+  | O => Some (s0, y0)
+  | S i' => match range_pre s0 y0 i' with
+            | Some (s, y) => match step s y with BNext s' y' => Some (s', y') | _ => None end
+            | None => None
+            end
+  end.
+Definition range_ans (s0 : St) (y0 : nat) (i : nat) : bool :=
+  match range_pre s0 y0 i with
+  | Some (s, y) => match step s y with BNext _ _ => true | _ => false end
+  | None => false
+  end.
+Fixpoint range_fold (how : iend) (s : St) (y : nat) (out : list xtree) (els : list xtree) : ires :=
+  match els with
+  | [] => IDone (match how with ByFuel => ByFuel | _ => ByEnd end) y out
+  | x :: els' =>
+    let fwd (y' : nat) := if (y' =? y)%nat then out else x :: out in
+    match step s y with
+    | BNext s' y' => range_fold how s' y' (fwd y') els'
+    | BBreak _ y' => IDone ByBreak y' (fwd y')
+    | BReturn _ y' => IDone ByReturn y' (fwd y')
+    | BPanic => IPanic
+    | BFuel => IFuel
+    end
+  end.
+Definition range_over (seq : (nat -> bool) -> ires) (s0 : St) (y0 : nat) (out0 : list xtree) : ires :=
+  match seq (range_ans s0 y0) with
+  | IDone how _ acc => range_fold how s0 y0 out0 (rev acc)
+  | IPanic => IPanic
+  | IFuel => IFuel
+  end.
+End Range.
